@@ -230,6 +230,8 @@ enum BalOp {
     Insert(usize),
     Remove(usize),
     Call,
+    /// A call made while no endpoint is registered, the endpoint arriving while it waits.
+    CallThenInsert(usize),
 }
 
 #[derive(Clone, Debug)]
@@ -260,6 +262,8 @@ fn bal_menu(live: &[bool; 3]) -> Vec<BalOp> {
     let mut m = vec![BalOp::Insert(0), BalOp::Insert(1), BalOp::Remove(0), BalOp::Remove(1), BalOp::Insert(2), BalOp::Remove(2)];
     if live.iter().any(|l| *l) {
         m.push(BalOp::Call);
+    } else {
+        m.push(BalOp::CallThenInsert(0));
     }
     m
 }
@@ -292,6 +296,44 @@ fn bal_body(c: &BalCase, ch: &Chooser) -> Outcome {
                     let _ = tx.send(tonic::transport::channel::Change::Remove(k)).await;
                     live[k] = false;
                     trace.push(format!("Remove({k})"));
+                }
+                BalOp::CallThenInsert(k) => {
+                    // the call is issued first and finds nothing to send to; the endpoint is
+                    // registered while it waits (nobody makes another request that could wake it)
+                    let mut client = EchoClient::new(channel.clone());
+                    let chx = ch.clone();
+                    let call = tokio::spawn(async move { client_call(&mut client, Shape::Unary, vec![vec![1]], &vec![], false, &chx, |_| {}).await });
+                    for _ in 0..20 {
+                        tokio::task::yield_now().await;
+                    }
+                    tokio::time::sleep(Duration::from_millis(20)).await;
+                    let ep = Endpoint::from_shared(format!("http://127.0.0.1:{}", ports[k])).unwrap_or_else(|e| crate::explore::machinery(format!("endpoint: {e}")));
+                    let _ = tx.send(tonic::transport::channel::Change::Insert(k, ep)).await;
+                    live[k] = true;
+                    trace.push(format!("CallThenInsert({k})"));
+                    match tokio::time::timeout(Duration::from_secs(4), call).await {
+                        Err(_) => {
+                            trace.push("Call=HANG".into());
+                            bad = Some(("balanced-call-hang".into(), format!("after {trace:?}: a call made while no endpoint was registered did not complete within 4 s of a reachable endpoint being registered")));
+                            break;
+                        }
+                        Ok(Err(e)) => crate::explore::machinery(format!("call task failed: {e}")),
+                        Ok(Ok(v)) => match &v.error {
+                            None if v.msgs == vec![vec![42u8]] => trace.push("Call=ok".into()),
+                            None => {
+                                trace.push("Call=wrong".into());
+                                bad = Some(("balanced-call-wrong".into(), format!("after {trace:?} the call returned {:?}", v.msgs)));
+                                break;
+                            }
+                            // a call that found no endpoint may also be refused at once (UNAVAILABLE): a definite answer
+                            Some(e) if e.code() == tonic::Code::Unavailable => trace.push("Call=Unavailable".into()),
+                            Some(e) => {
+                                trace.push(format!("Call={:?}", e.code()));
+                                bad = Some(("balanced-call-failed".into(), format!("after {trace:?} the call failed with {}", crate::env::fmt_status(e))));
+                                break;
+                            }
+                        },
+                    }
                 }
                 BalOp::Call => {
                     let mut client = EchoClient::new(channel.clone());
@@ -401,7 +443,7 @@ pub fn property(tier: Tier) -> Property {
     let bal = Section::new(
         "balance-discovery",
         Config { hang_secs: 120, ..Default::default() },
-        "cases: every history of depth 4 (thorough 5) over {insert endpoint k, remove endpoint k (k in 0..3; 0 and 1 are reachable servers, 2 is an address nobody listens on), call (only while the model has an endpoint registered)} on a fresh Channel::balance_channel (choices cost nothing; one case per first operation). A balanced channel connects inserted endpoints with tonic's own TCP connector, so this section alone runs over real loopback sockets in real time against two tonic servers on 127.0.0.1 that each execution starts for itself; the only verdict taken from it is completion: RefBalance = the set of registered keys; a call issued while that set is non-empty completes (bound: 4 s of real time, thousands of times a loopback call's latency) — with the backend's answer when only reachable endpoints are registered, with UNAVAILABLE when only the unreachable one is, with either when both kinds are — whether an endpoint was registered before, removed and registered again must not matter. Non-trivial = the history removes an endpoint and makes a call.",
+        "cases: every history of depth 4 (thorough 5) over {insert endpoint k, remove endpoint k (k in 0..3; 0 and 1 are reachable servers, 2 is an address nobody listens on), call (while the model has an endpoint registered), call-then-insert (while it has none: the call is issued first and endpoint 0 is registered 20 ms later)} on a fresh Channel::balance_channel (choices cost nothing; one case per first operation). A balanced channel connects inserted endpoints with tonic's own TCP connector, so this section alone runs over real loopback sockets in real time against two tonic servers on 127.0.0.1 that each execution starts for itself; the only verdict taken from it is completion: RefBalance = the set of registered keys; a call issued while that set is non-empty completes (bound: 4 s of real time, thousands of times a loopback call's latency) — with the backend's answer when only reachable endpoints are registered, with UNAVAILABLE when only the unreachable one is, with either when both kinds are — whether an endpoint was registered before, removed and registered again must not matter. Non-trivial = the history removes an endpoint and makes a call.",
         bal_menu(&[false; 3]).into_iter().map(|first| BalCase { first, depth: bdepth }).collect(),
         |c: &BalCase| format!("first={:?} depth={}", c.first, c.depth),
         bal_body,
